@@ -79,7 +79,19 @@ type Pool struct {
 	New   func() any
 	items [64]any
 	n     int
+	owner *simrt.Kernel // the world the items belong to: a pool in a package variable starts every world empty
 	real  sync.Pool
+}
+
+//go:norace
+func (p *Pool) enter() {
+	if p.owner != simrt.K {
+		p.owner = simrt.K
+		for i := 0; i < p.n; i++ {
+			p.items[i] = nil
+		}
+		p.n = 0
+	}
 }
 
 //go:norace
@@ -94,6 +106,7 @@ func (p *Pool) Get() any {
 		return nil
 	}
 	simrt.Yield()
+	p.enter()
 	n := p.n
 	if n > 0 {
 		// n items and "the pool lost them": mostly hand out an item
@@ -123,6 +136,7 @@ func (p *Pool) Put(x any) {
 		return
 	}
 	simrt.Yield()
+	p.enter()
 	simrt.RaceReleaseMerge(unsafe.Pointer(p))
 	if p.n < len(p.items) {
 		p.items[p.n] = x
